@@ -603,6 +603,7 @@ func c21(c *an.Check) {
 		}
 	}
 	c.Require(bad == "" && n == 1, "WHO", "signaling client: only Recv marks a message as taken", rcv, "", n, "single recvProcessed = true, in ClientPeerRef.Recv", "recvProcessed is set outside Recv: "+bad)
+	clientEpochReset(c)
 	clientLockset(c)
 	serverLockset(c)
 }
@@ -614,6 +615,55 @@ func isParamCell(p *an.Prog, v ssa.Value, fn *ssa.Function, idx int) bool {
 	}
 	sv := p.SingleStore(a)
 	return sv != nil && an.IsParam(sv, idx) && sv.Parent() == fn
+}
+
+// clientEpochReset: the client's open handler — the critical section that records a new session epoch — discards
+// everything that belongs to the previous epoch: the inbox (recv, recvProcessed) and the transmit flags (outSent,
+// outAcked). When the partner's call is usurped the server announces only Opened(new), never Closed, so this is the one
+// place the old epoch's pending message is dropped.
+func clientEpochReset(c *an.Check) {
+	p := c.P
+	ex := p.Func(cliPkg, "clientPeerTracker", "execute")
+	openF := fv(c, cliPkg, "clientPeerTracker", "open")
+	if ex == nil || openF == nil {
+		c.Undecided("MUSTCALL", "signaling client open handler", nil, "unresolved anchor")
+		return
+	}
+	isOpenStore := func(ins ssa.Instruction) bool {
+		v, _, ok := storeTo(ins, openF)
+		return ok && !isNilConst(v)
+	}
+	var lits []*ssa.Function
+	for _, g := range an.WithClosures(ex) {
+		for _, b := range g.Blocks {
+			for _, ins := range b.Instrs {
+				if isOpenStore(ins) {
+					lits = append(lits, g)
+				}
+			}
+		}
+	}
+	if len(lits) != 1 {
+		c.Undecided("MUSTCALL", "signaling client open handler", ex, fmt.Sprintf("unresolved anchor: %d literals record a new epoch", len(lits)))
+		return
+	}
+	g := lits[0]
+	cleared := func(field string, pred func(ssa.Value) bool) an.Req {
+		f := fv(c, cliPkg, "clientPeerTracker", field)
+		return an.Req{Name: field + " reset in the same critical section", Holds: func(s *an.State, at ssa.Instruction) bool {
+			return s.Executed(at, func(i ssa.Instruction) bool { v, _, ok := storeTo(i, f); return ok && pred(v) })
+		}}
+	}
+	isFalseConst := func(v ssa.Value) bool {
+		k, ok := v.(*ssa.Const)
+		return ok && k.Value != nil && k.Value.String() == "false"
+	}
+	c.Gate(an.GateSpec{Rule: "MUSTCALL", Construct: "signaling client open handler discards the previous epoch's state", Fn: g,
+		Sink: func(s *an.State, ins ssa.Instruction) bool {
+			_, isRet := ins.(*ssa.Return)
+			return isRet && s.Executed(ins, isOpenStore)
+		},
+		Reqs: []an.Req{cleared("recv", isNilConst), cleared("recvProcessed", isFalseConst), cleared("outSent", isFalseConst), cleared("outAcked", isFalseConst)}})
 }
 
 func clientLockset(c *an.Check) {
